@@ -77,6 +77,14 @@ def _env():
     return e
 
 
+def _mem_cap():
+    """Address-space cap for cargo-kani and its children (CBMC): a harness that needs more is reported as not decided
+    (CBMC prints 'out of memory') instead of exhausting the sandbox (62 GB, no swap)."""
+    import resource
+    cap = int(os.environ.get('VERIF_KANI_MEM_GB', '24')) << 30
+    resource.setrlimit(resource.RLIMIT_AS, (cap, cap))
+
+
 def run(prop, tier, harnesses):
     t0 = time.time()
     names = [h['name'] for h in harnesses]
@@ -92,7 +100,7 @@ def run(prop, tier, harnesses):
         import fcntl
         fcntl.flock(lock, fcntl.LOCK_EX)
         d = workdir()   # (under the lock: concurrent scratch runs share the -alt directory)
-        p = subprocess.run(cmd, cwd=d, env=_env(), capture_output=True, text=True, timeout=KANI_TIMEOUT)
+        p = subprocess.run(cmd, cwd=d, env=_env(), capture_output=True, text=True, timeout=KANI_TIMEOUT, preexec_fn=_mem_cap)
     except subprocess.TimeoutExpired:
         res['undecided'] = f'kani timeout after {KANI_TIMEOUT}s'
         return res
